@@ -149,7 +149,10 @@ func genPoly(r *rng, u int) shape {
 		return multiHolePoly(r, u)
 	}
 	var ext []ipt
-	switch r.intn(4) {
+	switch r.intn(5) {
+	case 4: // a dart: exactly one reflex vertex, given first (the seam of the cyclic neighbour selection)
+		w, h, d := u*2*r.rangeI(3, 8), u*2*r.rangeI(4, 8), u*2*r.rangeI(1, 2)
+		ext = []ipt{{w / 2, d}, {w, 0}, {w / 2, h}, {0, 0}, {w / 2, d}}
 	case 0:
 		ext = rectRing(0, 0, u*2*r.rangeI(2, 6), u*2*r.rangeI(2, 6))
 	case 1: // L / notch shapes (concave, rectilinear)
@@ -813,7 +816,74 @@ func smallShapes(L int, maxRing int) []shape {
 	return ss
 }
 
+// receiver lines with repeated / collinear vertices and arguments that walk along them
+// through their vertices (the Line.ContainsLine matcher and its termination)
+func genLineWalks(o *out, r *rng, n int) {
+	for i := 0; i < n; i++ {
+		u := 16
+		k := r.rangeI(2, 5)
+		var a []ipt
+		p := ipt{r.rangeI(-3, 3) * 4 * u, r.rangeI(-3, 3) * 4 * u}
+		a = append(a, p)
+		dir := ipt{4 * u, 0}
+		for j := 0; j < k; j++ {
+			switch r.intn(5) {
+			case 0:
+				dir = ipt{0, 4 * u}
+			case 1:
+				dir = ipt{4 * u, 4 * u}
+			case 2:
+				dir = ipt{-dir.x, -dir.y} // doubling back over itself
+			}
+			p = ipt{p.x + dir.x, p.y + dir.y}
+			a = append(a, p)
+			if r.coin(0.3) {
+				a = append(a, p) // repeated vertex: a zero-length segment
+			}
+		}
+		// argument: points of a (vertices, midpoints, quarter points) in walk order, sometimes leaving it
+		var cand []ipt
+		for j := 0; j+1 < len(a); j++ {
+			cand = append(cand, a[j], ipt{(a[j].x + a[j+1].x) / 2, (a[j].y + a[j+1].y) / 2})
+		}
+		cand = append(cand, a[len(a)-1])
+		start := r.intn(len(cand))
+		step := 1
+		if r.coin(0.3) {
+			step = -1
+		}
+		var b []ipt
+		for j := start; j >= 0 && j < len(cand) && len(b) < 5; j += step * r.rangeI(1, 2) {
+			if len(b) > 0 && b[len(b)-1] == cand[j] && !r.coin(0.2) {
+				continue
+			}
+			b = append(b, cand[j])
+		}
+		if r.coin(0.3) && len(b) > 0 {
+			q := b[len(b)-1]
+			b = append(b, ipt{q.x + u, q.y + 3*u})
+		}
+		if len(b) < 2 {
+			continue
+		}
+		ida, idb := o.newID("W"), o.newID("W")
+		o.op("def %s line 0 0 %s", ida, ptsStr(a))
+		o.op("def %s line 0 0 %s", idb, ptsStr(b))
+		o.op("pred %s %s", ida, idb)
+		o.op("pred %s %s", idb, ida)
+		if i%50 == 49 {
+			o.op("reset")
+		}
+	}
+	o.op("reset")
+}
+
 func genPairs(o *out, r *rng, thorough bool, withRingseg bool) {
+	nw := 400
+	if thorough {
+		nw = 20000
+	}
+	genLineWalks(o, r, nw)
 	// (1) exhaustive pairs of small shapes on the 3x3 lattice (sampled in the quick tier)
 	ss := smallShapes(3, 3)
 	stride := 23
